@@ -35,7 +35,7 @@ def op_pipeline(req):
     import process_genome
     d = tempfile.mkdtemp(prefix="vh_")
     try:
-        gpath, tpath = os.path.join(d, "genes.tsv"), os.path.join(d, "tes.tsv")
+        gpath, tpath = os.path.join(d, "genes.v2.tsv"), os.path.join(d, "tes.v2.mod.TEanno.tsv")
         cpath = os.path.join(d, "cfg.ini")
         gen.write_pair(req["case"], gpath, tpath, cpath)
         out = os.path.join(d, "out")
@@ -52,7 +52,7 @@ def op_pipeline(req):
                 # the output directory has been used before, for another annotation pair under other file names and
                 # the same or another genome id
                 import time
-                g0, t0, c0 = os.path.join(d, "genes_earlier.tsv"), os.path.join(d, "tes_earlier.tsv"), os.path.join(d, "cfg_earlier.ini")
+                g0, t0, c0 = os.path.join(d, "genes.v1.tsv"), os.path.join(d, "tes.v1.mod.TEanno.tsv"), os.path.join(d, "cfg_earlier.ini")
                 if before.get("same_names"):        # the annotation files are edited in place
                     g0, t0 = gpath, tpath
                 gen.write_pair(before["case"], g0, t0, c0)
@@ -138,11 +138,11 @@ def op_preprocess(req):
         if req.get("before") is not None:
             # the output directory has been used before: another annotation pair, under other file names, same genome id
             import time
-            g0, t0 = os.path.join(d, "genes_earlier.tsv"), os.path.join(d, "tes_earlier.tsv")
+            g0, t0 = os.path.join(d, "genes.v1.tsv"), os.path.join(d, "tes.v1.mod.TEanno.tsv")     # same stem before the first dot as the current pair
             gen.write_pair(req["before"], g0, t0)
             PreProcessor(g0, t0, out, False, req.get("before_genome") or req.get("genome", "G"), False).process()
             time.sleep(0.03)
-        gpath, tpath = os.path.join(d, "genes.tsv"), os.path.join(d, "tes.tsv")
+        gpath, tpath = os.path.join(d, "genes.v2.tsv"), os.path.join(d, "tes.v2.mod.TEanno.tsv")
         gen.write_pair(req["case"], gpath, tpath)
         pre = PreProcessor(gpath, tpath, out, req.get("reset_h5", False), req.get("genome", "G"), req.get("revise_anno", False))
         pre.process()
